@@ -22,11 +22,11 @@ CHECKS = {
                 text="TLC explores every interleaving of loop callbacks, helper threads, process exits and main-thread calls for small DAG/token/"
                      "re-submission workloads (invariants TruthfulFinal, FinalAbsorbing, ResultIsFinal, WaitOnlyWhenAllFinal, deadlock = hang); "
                      "thousands of real executions (systematic for tiny workloads, seeded random otherwise) are validated step by step against "
-                     "the specification and every execution must end in the model's GoodEnd. The specification also covers experiment.stop() (SIGINT during the wait: Sigint / StopStep / WaitReturnStopped, family stop) and job processes killed from outside (no marker, stale pid file); priority ('starvation') schedules stretch the window of every kind of pending step; a hang of the real scheduler is an outcome, checked by a self-test. Real-process halves: SIGINT / SIGTERM / SIGHUP sent to a real experiment process with running jobs (E2-restart) must leave truthful final states; the file token half (XpmTokenFS, E2-token) runs too, including the order of dependency registration and readiness check at submission (MC_TokenFS_addfirst holds, MC_TokenFS_checkfirst loses a wake-up; the hooked order of the real code must be the first).", note=SCHED_NOTE),
+                     "the specification and every execution must end in the model's GoodEnd. The specification also covers experiment.stop() (SIGINT during the wait: Sigint / StopStep / WaitReturnStopped, family stop) and job processes killed from outside (no marker, stale pid file); priority ('starvation') schedules stretch the window of every kind of pending step; a hang of the real scheduler is an outcome, checked by a self-test. Real-process halves: SIGINT / SIGTERM / SIGHUP sent to a real experiment process with running jobs (E2-restart) must leave truthful final states; the file token half (XpmTokenFS, E2-token) runs too, including the order of dependency registration and readiness check at submission (MC_TokenFS_addfirst holds, MC_TokenFS_checkfirst loses a wake-up; the hooked order of the real code must be the first); the token declared again with a larger total by another process while a job waits for it (Redeclare / OnInfo, MC_TokenFS_retotal*, scenarios enlarged, enlarged_while_held): the waiting job must be told.", note=SCHED_NOTE),
     "C07": dict(category="model_checking", engine="E1", design="5 (C07), 3.1",
                 technique="TLA+ XpmScheduler: TLC exhaustive over failing subsets + trace validation (E1)",
                 text="All failing subsets of chain/diamond DAGs are explored exhaustively by TLC (dependents cancelled, independents run, exit "
-                     "status); real executions with failing processes are validated against the specification. Killed job processes (no marker) and adopted jobs that die without marker are part of the model and of the plans; leaving the experiment early (counter mismatch) counts for this property; at the end every job whose upstream jobs succeeded must have run. Start failures (the launcher raises) and memory-killed processes are plans; a livelock of the real scheduler is an outcome. Real signals to a real experiment process (E2-restart signal cases).", note=SCHED_NOTE),
+                     "status); real executions with failing processes are validated against the specification. Killed job processes (no marker) and adopted jobs that die without marker are part of the model and of the plans; leaving the experiment early (counter mismatch) counts for this property; at the end every job whose upstream jobs succeeded must have run. Start failures (the launcher raises) and memory-killed processes are plans; a livelock of the real scheduler is an outcome. Real signals to a real experiment process (E2-restart signal cases). A second experiment of the same program that uses outputs of the first one without submitting them again (NewXp, plans reuse-*): a failure that is only by dependency still makes the experiment fail, a failure of the earlier experiment does not.", note=SCHED_NOTE),
     "C08": dict(category="model_checking", engine="E1", design="5 (C08), 3.1, 3.3",
                 technique="TLA+ XpmScheduler (in-process token) and XpmTokenFS (file token, several processes): TLC exhaustive Capacity / MutualExclusion + trace validation of E1 executions and of real multi-process token logs (E2-token)",
                 text="Capacity / conservation invariants checked by TLC for all interleavings with heterogeneous requests; real executions with "
@@ -34,7 +34,7 @@ CHECKS = {
                      "XpmTokenFS models the file token at the grain of ipc lock / recount / create-open / create-write / observer callbacks / "
                      "reclaim threads (4M states, 2 processes); 2-3 real processes sharing one token directory run scripted scenarios "
                      "(contention, acquisition attempted while the other is inside the file creation, deaths) and their hook event logs "
-                     "must be behaviours of the model (every file operation inside the critical section, logged counts = recounted files).",
+                     "must be behaviours of the model (every file operation inside the critical section, logged counts = recounted files). A job that ends, gives its token back and comes back under the same token file name asking for more while another scheduler is suspended (scenario larger_again; Resubmit, JobLocked and FixF23 in the model; MC_TokenFS_resubmit holds, MC_TokenFS_resubmit_F23 shows the stale reclaim): RunningHoldFile, RunningUnderCapacity.",
                 note=SCHED_NOTE + " E2-token: mini scheduler processes drive the real CounterToken; jobs are stand-ins holding the run lock; interleavings are scripted with pause points, not exhaustive."),
     "C09": dict(category="model_checking", engine="E1", design="5 (C09), 3.1, 3.3",
                 technique="TLA+ XpmScheduler: TLC deadlock freedom + IdleTokenIsFull + liveness; TLA+ XpmTokenFS: ObserversSurvive / Informed / ReclaimOnlyAfterEnd by TLC; trace validation of E1 executions (aborted starts) and of multi-process token logs with scheduler deaths (E2-token)",
@@ -42,13 +42,13 @@ CHECKS = {
                      "executions whose End event requires the model's terminal predicate (tokens full, nothing waiting). Death of a scheduler "
                      "followed by the job's own end, death in the middle of the token-file creation, partial returns of capacity: scripted on "
                      "real processes; at every quiescent point of the log a waiting job whose request fits must have been told, and the token "
-                     "files of ended jobs must be gone. Lost wake-ups inside the window of an aborted start are searched with starvation schedules and 5x more schedules on contention plans; the quiescent-point clauses of XpmTokenFS_Trace (told when it fits, files of ended jobs gone) are evaluated after waiting for events logged after their trigger.", note=SCHED_NOTE + " Liveness across processes is checked at scripted quiescent points only."),
+                     "files of ended jobs must be gone. Lost wake-ups inside the window of an aborted start are searched with starvation schedules and 5x more schedules on contention plans; the quiescent-point clauses of XpmTokenFS_Trace (told when it fits, files of ended jobs gone) are evaluated after waiting for events logged after their trigger. token.info declared again (see C06) and left truncated by a dead writer.", note=SCHED_NOTE + " Liveness across processes is checked at scripted quiescent points only."),
     "C05": dict(category="model_checking", engine="E1+E2", design="5 (C05), 3.1, 3.2",
                 technique="TLA+ XpmScheduler (registry, done markers, restart) + XpmJobDir (competing launches): TLC exhaustive + trace validation of E1 executions and of real-process races (E2)",
                 text="Registry de-duplication, 'never launched again when done' and re-submission are checked by TLC on the scheduler model and on "
                      "real scheduler executions (duplicates at every position, later experiments, removed markers); 'the body never runs twice at "
                      "once / again after success' is checked by TLC on the job-directory model (2-3 competing launches, signals anywhere) and on "
-                     "scripted races of 2-3 real job processes whose histories must be behaviours of the model. The first launch is preempted before each of its statements while a second launch arrives (every 4th statement quick, every statement thorough): a lock released before the success marker is written is rejected by the model; a second job created for a configuration that succeeded and never failed is reported.",
+                     "scripted races of 2-3 real job processes whose histories must be behaviours of the model. The first launch is preempted before each of its statements while a second launch arrives (every 4th statement quick, every statement thorough): a lock released before the success marker is written is rejected by the model; a second job created for a configuration that succeeded and never failed is reported. XpmAdopt: the look-up of a job left by an earlier run at the grain of the scheduler's accesses (marker, pid file, process table, wait, marker again) against the last steps of that job; every terminal behaviour exported by TLC (103; thorough: all 553 placements) is replayed on the real scheduler with its accesses intercepted and a real non-child process as the orphan: never launched again when its success marker was there. Duplicates submitted while a job is being adopted are enumerated systematically (plan kill-restart-dup).",
                 note=SCHED_NOTE + " E2 races are scripted (holder in body, waiter blocked on the lock, third arrival), not exhaustive at instruction level."),
     "C10": dict(category="fault_enumeration", engine="E2+E1", design="5 (C10), 3.2, 4.4",
                 technique="TLA+ XpmJobDir: TLC exhaustive over signal x statement; fault enumeration signal x executed line of the real TaskRunner, histories validated by TLC (silent-step trace spec)",
@@ -63,7 +63,7 @@ CHECKS = {
                 text="The scheduler model includes SIGKILL of the scheduler at any point and a restart on the same workspace (adoption through "
                      "the pid file, done markers, run lock held by surviving job processes); TLC checks body-exactly-once invariants exhaustively "
                      "and the real scheduler is killed after every k-th recorded event of base schedules (with long-running and short jobs), "
-                     "restarted, and the whole two-run history validated against the specification. Real-process half (E2-restart): the real experiment process is SIGKILLed before the k-th statement (all threads) of scheduler/base.py, commandline.py, scriptbuilder.py, connectors/local.py with real gated job processes; the same experiment is run again (jobs still running or already ended) and must end with the same successes and every body executed exactly once. Ctrl-C during the wait followed by the same experiment again is part of the model (family stop). Jobs that can be adopted (pid file + live process, also when the orphan is suspended) must not be launched again; a job process killed from outside (code 9: no marker, stale pid file) is part of the model.",
+                     "restarted, and the whole two-run history validated against the specification. Real-process half (E2-restart): the real experiment process is SIGKILLed before the k-th statement (all threads) of scheduler/base.py, commandline.py, scriptbuilder.py, connectors/local.py with real gated job processes; the same experiment is run again (jobs still running or already ended) and must end with the same successes and every body executed exactly once. Ctrl-C during the wait followed by the same experiment again is part of the model (family stop). Jobs that can be adopted (pid file + live process, also when the orphan is suspended) must not be launched again; a job process killed from outside (code 9: no marker, stale pid file) is part of the model. XpmAdopt (see C05): the orphan ends between any two accesses of the restarted scheduler's look-up -- the decision must be DONE without launch when it succeeded, never an exception or a hang (F22); MC_Adopt_nosecond / MC_Adopt_unguarded show on the model what the second marker check and the guarded read protect. The token directory a dead scheduler left with a truncated token.info must be usable by the next one (scenario info_torn).",
                 note=SCHED_NOTE + " Scheduler death is injected at loop-callback boundaries of the in-process engine; real-process kills are covered for the job side by C10."),
     "C01": dict(category="model_checking", engine="E3", design="5 (C01), 3.5, 4.2",
                 technique="TLA+ XpmConfig/MC_Config: TLC exhaustive over seal/request/assign/submit histories (IdIsCanonical) + TLC-generated behaviours replayed on real objects with byte-level stream comparison + code->spec stream validation",
@@ -98,7 +98,7 @@ CHECKS = {
                 technique="TLA+ XpmConfig GenWalk: TLC checks inside/distinct over the structure family; generated paths of real sealed graphs validated by TLC; dry-run resubmission",
                 text="The Sealer walk (first-visit DFS with context keys) is specified; TLC checks GenInside/GenDistinct on the structure family and "
                      "validates the generated path of every node of random real graphs (shared nodes, lists, dicts, pre/init tasks); the same "
-                     "configuration submitted twice (dry run) must get equal, distinct paths inside the job directory.",
+                     "configuration submitted twice (dry run) must get equal, distinct paths inside the job directory. Parameters are assigned / given to the constructors in an order that is not their declaration order.",
                 note="Domain: plain file names and plain dict keys."),
     "C20": dict(category="model_checking", engine="E3", design="5 (C20), 3.5, 3.4",
                 technique="TLA+ XpmConfig: DeprecatedSame by TLC + class-swap pairs judged by TLC; TLA+ XpmDeprecated: all repair sequences by TLC, each replayed with the real fix_deprecated on real workspaces (absolute and relative paths); TLA+ XpmDeprecatedSteps: crash between any two file-system operations by TLC (refinement of the atomic repair, recovery), repairs killed before every statement / failing writes validated by TLC",
@@ -194,18 +194,21 @@ m = {
         "add_only": True,
     },
     "engines": [
-        {"name": "E1", "path": "/verif/xv/e1.py", "serves_properties": ["C04", "C05", "C06", "C07", "C08", "C09", "C11"],
+        {"name": "E1", "path": "/verif/xv/e1.py", "serves_properties": ["C04", "C05", "C06", "C07", "C08", "C09", "C10", "C11"],
          "kind_free_text": "deterministic in-process engine: the real scheduler coroutines on a controllable event loop; records one "
                            "event + full projected state per step; validated by TLC against spec/XpmScheduler_Trace.tla"},
         {"name": "E2-job", "path": "/verif/xv/e2_jobdir.py", "serves_properties": ["C05", "C10", "C11"],
          "kind_free_text": "real generated job scripts run by experimaestro.run in real processes; faults (KILL/TERM/INT/pause) raised "
                            "from inside at the k-th executed line; histories validated by TLC against spec/XpmJobDir_Trace.tla"},
-        {"name": "E2-token", "path": "/verif/xv/e2_token.py", "serves_properties": ["C06", "C08", "C09"],
+        {"name": "E2-token", "path": "/verif/xv/e2_token.py", "serves_properties": ["C06", "C08", "C09", "C11"],
          "kind_free_text": "2-3 real processes sharing one CounterToken directory, scripted with pause points and deaths; hook event "
                            "logs validated by TLC against spec/XpmTokenFS_Trace.tla"},
         {"name": "E2-restart", "path": "/verif/xv/e2_restart.py", "serves_properties": ["C04", "C06", "C07", "C11", "C12"],
          "kind_free_text": "a real experiment process with real gated jobs, SIGKILLed before its k-th statement (all threads) or "
                            "signalled, then the same experiment again; body counts, adoptions and outputs compared with XpmScheduler's restart rules"},
+        {"name": "adopt-replay", "path": "/verif/xv/adopt.py", "serves_properties": ["C05", "C11"],
+         "kind_free_text": "the real experiment and scheduler in process with their accesses to the orphan job's marker, pid file and "
+                           "process intercepted; the orphan's last steps are played between them as XpmAdopt's behaviours say"},
         {"name": "E3", "path": "/verif/xv/cfgreal.py", "serves_properties": ["C01", "C02", "C03", "C12", "C13", "C14", "C15", "C16", "C17", "C18", "C19", "C20"],
          "kind_free_text": "in-process: real configuration objects / workspaces / CLI driven along TLC-generated behaviours (spec->code) "
                            "and observed values sent to TLC as reference evaluator (code->spec)"},
